@@ -2,6 +2,7 @@ import PMV.Proofs.PyCore
 import PMV.Proofs.PyCoreInst
 import PMV.Proofs.PyCoreMono
 import PMV.Proofs.PyCoreImports
+import PMV.Proofs.PyCoreBindInst
 /-
   C01 — With the default options a minified program behaves like the original.
   `Spec.PyCore` gives a first-order core of Python (ints, bools, strings, None; assignment, `if`,
@@ -26,6 +27,7 @@ open PMV PMV.Transforms PMV.PyCore PMV.Minify
 /-- T01.1 -/
 theorem remove_pass_preserves (n : Nat) (m : Module) : run n (travModule removePass m) = run n m :=
   run_trav (dropT isPass) (dropT_sound isPass isPass_noop) (dropT_table (o := false) isPass isPass_noop) n m
+    (stable_of_bindOK _ (dropT_bindOK isPass isPass_binds) _)
 
 /-- T01.2 (including the guard that leaves the module alone when it mentions `__doc__`) -/
 theorem remove_literals_preserves (n : Nat) (m : Module) : run n (removeLiteralStatements m) = run n m := by
@@ -33,19 +35,20 @@ theorem remove_literals_preserves (n : Nat) (m : Module) : run n (removeLiteralS
   split
   · rfl
   · exact run_trav (dropT isLiteralStmt) (dropT_sound _ isLiteral_noop) (dropT_table (o := false) _ isLiteral_noop) n m
+      (stable_of_bindOK _ (dropT_bindOK _ isLiteral_binds) _)
 
 /-- T01.3 -/
 theorem return_none_preserves (n : Nat) (m : Module) : run n (travModule removeReturnNone m) = run n m :=
-  run_trav removeReturnNone returnNone_sound returnNone_table n m
+  run_trav removeReturnNone returnNone_sound returnNone_table n m (stable_of_bindOK _ returnNone_bindOK _)
 
 /-- T01.4 -/
 theorem exception_brackets_preserves (el : List String) (n : Nat) (m : Module) :
     run n (travModule (removeBrackets el) m) = run n m :=
-  run_trav _ (brackets_sound el) (brackets_table el) n m
+  run_trav _ (brackets_sound el) (brackets_table el) n m (stable_of_bindOK _ (brackets_bindOK el) _)
 
 /-- T01.5 -/
 theorem remove_object_preserves (n : Nat) (m : Module) : run n (travModule removeObject m) = run n m :=
-  run_trav _ object_sound object_table n m
+  run_trav _ object_sound object_table n m (stable_of_bindOK _ object_bindOK _)
 
 /-- T01.7: constant folding refines the behaviour of every module: unless the original run leaves the core
     (`stuck`), the folded module prints the same lines, ends the same way and leaves the same globals — for any
@@ -61,23 +64,29 @@ theorem convert_posargs_preserves (n : Nat) (m : Module) (hcore : (run n m).endi
   run_removePosargs n m hcore
 
 /-- T01.10 (the `-O` clause of C05, as behaviour): under `python -O` semantics (`runO`: `__debug__` tests are False,
-    `assert` statements are not executed) remove_asserts leaves the observable unchanged … -/
-theorem remove_asserts_preserves_under_O (n : Nat) (m : Module) : runO n (travModule removeAsserts m) = runO n m :=
+    `assert` statements are not executed) remove_asserts leaves the observable unchanged, provided the removed statements
+    bind no name of a function (`scopeStable`, decidable, evaluated per program by the check): which names are local to
+    a function is decided statically, so removing the only binding of a name — `assert (x := …)`, `if __debug__: x = 1` —
+    turns a local variable into a global one, under `-O` too (finding F38) … -/
+theorem remove_asserts_preserves_under_O (n : Nat) (m : Module) (hs : scopeStable removeAsserts m = true) :
+    runO n (travModule removeAsserts m) = runO n m :=
   runO_trav (dropT isAssert) (dropT_sound isAssert isAssert_noop) (dropT_table (o := true) isAssert isAssert_noop) n m
+    (stable_of_scopeStable _ m hs)
 
 /-- … and so does remove_debug: the removed `if __debug__:` blocks (the documented spellings, no `else`) do nothing there. -/
-theorem remove_debug_preserves_under_O (n : Nat) (m : Module) : runO n (travModule removeDebug m) = runO n m :=
+theorem remove_debug_preserves_under_O (n : Nat) (m : Module) (hs : scopeStable removeDebug m = true) :
+    runO n (travModule removeDebug m) = runO n m :=
   runO_trav (dropT canRemoveDebug) (dropT_sound canRemoveDebug canRemoveDebug_noop)
-    (dropT_table (o := true) canRemoveDebug canRemoveDebug_noop) n m
+    (dropT_table (o := true) canRemoveDebug canRemoveDebug_noop) n m (stable_of_scopeStable _ m hs)
 
 /-- T01.12: combine_imports leaves the observable unchanged, where the observable now includes the sequence of import
     events (which module, bound to which name, in which order): merged statements import the same modules in the
     same order and bind the same names.  Holds under both semantics. -/
 theorem combine_imports_preserves (n : Nat) (m : Module) : run n (travModule combineImports m) = run n m :=
-  run_trav combineImports combineImports_sound combineImports_table n m
+  run_trav combineImports combineImports_sound combineImports_table n m (stable_of_bindOK _ combineImports_bindOK _)
 
 theorem combine_imports_preserves_under_O (n : Nat) (m : Module) : runO n (travModule combineImports m) = runO n m :=
-  runO_trav combineImports combineImports_sound combineImports_table n m
+  runO_trav combineImports combineImports_sound combineImports_table n m (stable_of_bindOK _ combineImports_bindOK _)
 
 /-- T01.9: fuel only bounds loop iterations and call depth: a run that ends within fuel `n` (anything but `timeout`)
     is the same at every larger fuel — "for every fuel" above speaks about the program, not about the bound. -/
@@ -146,20 +155,97 @@ theorem pipeline_partial (t : Printer.PrecTable) (sp : Token.Spacing) (orc : Fol
   rw [hT]
   exact e7
 
+/-! the same transforms under `python -O` semantics -/
+
+theorem remove_pass_preserves_under_O (n : Nat) (m : Module) : runO n (travModule removePass m) = runO n m :=
+  runO_trav (dropT isPass) (dropT_sound isPass isPass_noop) (dropT_table (o := true) isPass isPass_noop) n m
+    (stable_of_bindOK _ (dropT_bindOK isPass isPass_binds) _)
+
+theorem remove_literals_preserves_under_O (n : Nat) (m : Module) : runO n (removeLiteralStatements m) = runO n m := by
+  unfold removeLiteralStatements
+  split
+  · rfl
+  · exact runO_trav (dropT isLiteralStmt) (dropT_sound _ isLiteral_noop) (dropT_table (o := true) _ isLiteral_noop) n m
+      (stable_of_bindOK _ (dropT_bindOK _ isLiteral_binds) _)
+
+theorem return_none_preserves_under_O (n : Nat) (m : Module) : runO n (travModule removeReturnNone m) = runO n m :=
+  runO_trav removeReturnNone returnNone_sound returnNone_table n m (stable_of_bindOK _ returnNone_bindOK _)
+
+theorem exception_brackets_preserves_under_O (el : List String) (n : Nat) (m : Module) :
+    runO n (travModule (removeBrackets el) m) = runO n m :=
+  runO_trav _ (brackets_sound el) (brackets_table el) n m (stable_of_bindOK _ (brackets_bindOK el) _)
+
+theorem remove_object_preserves_under_O (n : Nat) (m : Module) : runO n (travModule removeObject m) = runO n m :=
+  runO_trav _ object_sound object_table n m (stable_of_bindOK _ object_bindOK _)
+
+/-! The hypothesis of T01.10 cannot be dropped: a removed `if __debug__:` block that holds the only binding of a name
+    changes which scope the name belongs to, and with it the behaviour under `-O` (finding F38; the same program
+    replayed on CPython behaves as the model says). -/
+
+/-- `x = 5` / `def f(): (if __debug__: x = 1); print(x)` / `f()` -/
+def scopingWitness : Module := ⟨[
+  .assign [.name "x" .store] (.constant (.int 5)),
+  .functionDef false "f" (.mk [] [] none [] [] none []) [
+    .if_ (.name "__debug__" .load) [.assign [.name "x" .store] (.constant (.int 1))] [],
+    .expr (.call (.name "print" .load) [.name "x" .load] [])] [] none [],
+  .expr (.call (.name "f" .load) [] [])]⟩
+
+set_option linter.unusedSimpArgs false in
+theorem witness_original_under_O : (runO 3 scopingWitness).ending = "raised:UnboundLocalError" := by
+  simp [runO, scopingWitness, collect, defOf, paramNames, execL, exec1, callOf, simpleExec, isAssertStmt, assignTarget, evalThen, evalE,
+    St.init, St.assign, Env.set, Env.get, callFn, evalArgs, List.lookup, bindTop, bindS, oguard, oapp, coreE, coreX, bindL, declaredGlobals, globalsOf,
+    condE, isDebugTest, Val.truthy, exprStmt, isConst, printArgs, St.lookup, St.unbound, St.isLocal, asCall, observe, canonNames, insertName]
+
+set_option linter.unusedSimpArgs false in
+theorem witness_minified_under_O : (runO 3 (travModule removeDebug scopingWitness)).ending = "normal" := by
+  simp [runO, scopingWitness, travModule, travBody, travStmt, removeDebug, filterSuite, canRemoveDebug, isDebugName, zeroStmt,
+    collect, defOf, paramNames, execL, exec1, callOf, simpleExec, isAssertStmt, assignTarget, evalThen, evalE,
+    St.init, St.assign, Env.set, Env.get, callFn, evalArgs, List.lookup, bindTop, bindS, oguard, oapp, coreE, coreX, bindL, declaredGlobals, globalsOf,
+    condE, isDebugTest, Val.truthy, exprStmt, isConst, printArgs, St.lookup, St.unbound, St.isLocal, asCall, observe, canonNames, insertName]
+
+/-- T01.10′ (negative): without the side condition remove_debug does not preserve the behaviour under `-O` -/
+theorem remove_debug_changes_scoping :
+    ∃ (n : Nat) (m : Module), runO n (travModule removeDebug m) ≠ runO n m ∧ scopeStable removeDebug m = false := by
+  refine ⟨3, scopingWitness, ?_, by decide⟩
+  intro h
+  have h1 := witness_original_under_O
+  have h2 := witness_minified_under_O
+  rw [h, h1] at h2
+  exact absurd h2 (by decide)
+
+/-- … and the side condition is satisfiable: a module whose `if __debug__` block binds nothing -/
+example : scopeStable removeDebug ⟨[
+    .functionDef false "f" (.mk [] [] none [] [] none []) [
+      .if_ (.name "__debug__" .load) [.expr (.call (.name "print" .load) [.constant (.int 1)] [])] [],
+      .return_ none] [] none []]⟩ = true := by decide
+
+/-- the module that reaches remove_asserts in the pipeline (annotation removal off) -/
+def beforeAsserts (o : Opts) (m : Module) : Module :=
+  let m := if o.removeLiteralStatements then removeLiteralStatements m else m
+  let m := if o.combineImports then travModule combineImports m else m
+  let m := if o.removePass then travModule removePass m else m
+  if o.removeObjectBase then travModule removeObject m else m
+
+/-- the module that reaches remove_debug -/
+def beforeDebug (o : Opts) (m : Module) : Module :=
+  let m := beforeAsserts o m
+  if o.removeAsserts then travModule removeAsserts m else m
+
 /-- T01.11: under `python -O` semantics the *whole* modelled transform pipeline except annotation
-    removal — ten transforms, including remove_asserts, remove_debug and combine_imports — refines the observable behaviour. -/
+    removal — ten transforms, including remove_asserts, remove_debug and combine_imports — refines the observable
+    behaviour, provided the statements that remove_asserts / remove_debug take out bind no function-local name
+    (`scopeStable` of the module that reaches them; see T01.10). -/
 theorem pipeline_partial_under_O (t : Printer.PrecTable) (sp : Token.Spacing) (orc : Fold.Oracle) (el : List String)
     (o : Opts) (h2 : o.annotations.any = false) (n : Nat) (m : Module)
+    (hA : o.removeAsserts = true → scopeStable removeAsserts (beforeAsserts o m) = true)
+    (hD : o.removeDebug = true → scopeStable removeDebug (beforeDebug o m) = true)
     (hcore : (runO n m).ending ≠ "stuck") :
     runO n (transformM t sp orc el o m) = runO n m := by
   let m1 := if o.removeLiteralStatements then removeLiteralStatements m else m
   have e1 : runO n m1 = runO n m := by
     show runO n (if o.removeLiteralStatements then removeLiteralStatements m else m) = runO n m
     split
-    · unfold removeLiteralStatements
-      split
-      · rfl
-      · exact runO_trav (dropT isLiteralStmt) (dropT_sound _ isLiteral_noop) (dropT_table (o := true) _ isLiteral_noop) n m
+    · exact remove_literals_preserves_under_O n m
     · rfl
   let m1c := if o.combineImports then travModule combineImports m1 else m1
   have e1c : runO n m1c = runO n m := by
@@ -171,32 +257,35 @@ theorem pipeline_partial_under_O (t : Printer.PrecTable) (sp : Token.Spacing) (o
   have e2 : runO n m2 = runO n m := by
     show runO n (if o.removePass then travModule removePass m1c else m1c) = runO n m
     split
-    · rw [show runO n (travModule removePass m1c) = runO n m1c from
-        runO_trav (dropT isPass) (dropT_sound isPass isPass_noop) (dropT_table (o := true) isPass isPass_noop) n m1c, e1c]
+    · rw [remove_pass_preserves_under_O, e1c]
     · exact e1c
   let m3 := if o.removeObjectBase then travModule removeObject m2 else m2
   have e3 : runO n m3 = runO n m := by
     show runO n (if o.removeObjectBase then travModule removeObject m2 else m2) = runO n m
     split
-    · rw [runO_trav _ object_sound object_table n m2, e2]
+    · rw [remove_object_preserves_under_O, e2]
     · exact e2
+  have hm3 : m3 = beforeAsserts o m := rfl
   let m4 := if o.removeAsserts then travModule removeAsserts m3 else m3
   have e4 : runO n m4 = runO n m := by
     show runO n (if o.removeAsserts then travModule removeAsserts m3 else m3) = runO n m
     split
-    · rw [remove_asserts_preserves_under_O, e3]
+    · rename_i ha
+      rw [remove_asserts_preserves_under_O n m3 (by rw [hm3]; exact hA ha), e3]
     · exact e3
+  have hm4 : m4 = beforeDebug o m := rfl
   let m5 := if o.removeDebug then travModule removeDebug m4 else m4
   have e5 : runO n m5 = runO n m := by
     show runO n (if o.removeDebug then travModule removeDebug m4 else m4) = runO n m
     split
-    · rw [remove_debug_preserves_under_O, e4]
+    · rename_i hd
+      rw [remove_debug_preserves_under_O n m4 (by rw [hm4]; exact hD hd), e4]
     · exact e4
   let m6 := if o.removeExplicitReturnNone then travModule removeReturnNone m5 else m5
   have e6 : runO n m6 = runO n m := by
     show runO n (if o.removeExplicitReturnNone then travModule removeReturnNone m5 else m5) = runO n m
     split
-    · rw [runO_trav removeReturnNone returnNone_sound returnNone_table n m5, e5]
+    · rw [return_none_preserves_under_O, e5]
     · exact e5
   let m7 := if o.constantFolding then foldModule t sp orc m6 else m6
   have e7 : runO n m7 = runO n m := by
@@ -209,7 +298,7 @@ theorem pipeline_partial_under_O (t : Printer.PrecTable) (sp : Token.Spacing) (o
   have e8 : runO n m8 = runO n m := by
     show runO n (if o.removeExceptionBrackets then travModule (removeBrackets el) m7 else m7) = runO n m
     split
-    · rw [runO_trav _ (brackets_sound el) (brackets_table el) n m7, e7]
+    · rw [exception_brackets_preserves_under_O, e7]
     · exact e7
   have e9 : runO n (if o.convertPosargs then removePosargs m8 else m8) = runO n m := by
     split
